@@ -5,18 +5,24 @@ import Pycel.Model.Aggregates
 namespace Pycel.Agg
 open Pycel
 
-/-- the cells the aggregates ignore: text (numeric text included), logicals, blanks -/
+/-- the cells the aggregates ignore: everything that is neither a number nor an error value — text (numeric text,
+    error look-alikes such as `#TODO` or `#n/a`, `TRUE` spelled as text, the empty text …), logicals, blanks -/
 def ignorable : Val → Bool
-  | .str _ => true
-  | .bool _ => true
-  | .blank => true
-  | _ => false
+  | .num _ => false
+  | v => !isErrCell v
 
 /-- no error value among the cells -/
-def NoErr (cs : List Val) : Prop := ∀ e, Val.err e ∉ cs
+def NoErr (cs : List Val) : Prop := ∀ v ∈ cs, isErrCell v = false
 
 /-- at most one distinct error value among the cells -/
-def OneErr (cs : List Val) : Prop := ∀ e₁ e₂, Val.err e₁ ∈ cs → Val.err e₂ ∈ cs → e₁ = e₂
+def OneErr (cs : List Val) : Prop :=
+  ∀ v₁ v₂, v₁ ∈ cs → v₂ ∈ cs → isErrCell v₁ = true → isErrCell v₂ = true → v₁ = v₂
+
+theorem ignorable_spec {v : Val} (h : ignorable v = true) : isErrCell v = false ∧ numOf? v = none := by
+  cases v <;> simp_all [ignorable, numOf?]
+
+theorem isErrCell_not_num {v : Val} (h : isErrCell v = true) : numOf? v = none ∧ ∀ q, v ≠ .num q := by
+  cases v <;> simp_all [isErrCell, numOf?]
 
 /-! ### firstErr / nums -/
 
@@ -24,15 +30,15 @@ def OneErr (cs : List Val) : Prop := ∀ e₁ e₂, Val.err e₁ ∈ cs → Val.
 @[simp] theorem nums_nil : nums [] = [] := rfl
 
 theorem firstErr_cons (v : Val) (cs : List Val) :
-    firstErr (v :: cs) = match v with | .err e => some e | _ => firstErr cs := by
-  cases v <;> rfl
+    firstErr (v :: cs) = if isErrCell v then some v else firstErr cs := by
+  simp only [firstErr, List.find?_cons]; cases isErrCell v <;> rfl
 
 theorem nums_cons (v : Val) (cs : List Val) :
-    nums (v :: cs) = match v with | .num q => q :: nums cs | _ => nums cs := by
-  cases v <;> rfl
+    nums (v :: cs) = match numOf? v with | some q => q :: nums cs | none => nums cs := by
+  simp only [nums, List.filterMap_cons]; cases numOf? v <;> rfl
 
 theorem firstErr_append (xs ys : List Val) : firstErr (xs ++ ys) = (firstErr xs).or (firstErr ys) := by
-  simp [firstErr, List.filterMap_append, List.head?_append]
+  simp [firstErr, List.find?_append]
 
 theorem nums_append (xs ys : List Val) : nums (xs ++ ys) = nums xs ++ nums ys := by
   simp [nums, List.filterMap_append]
@@ -45,58 +51,76 @@ theorem mem_nums {q : Rat} {cs : List Val} : q ∈ nums cs ↔ Val.num q ∈ cs 
     subst h; exact ha
   · intro h; exact ⟨_, h, rfl⟩
 
-theorem firstErr_mem {e : Err} {cs : List Val} (h : firstErr cs = some e) : Val.err e ∈ cs := by
-  induction cs with
-  | nil => simp at h
-  | cons v cs ih =>
-    rw [firstErr_cons] at h
-    cases v with
-    | err e' => simp at h; subst h; simp
-    | _ => simp at h; exact List.mem_cons_of_mem _ (ih h)
+theorem firstErr_mem {v : Val} {cs : List Val} (h : firstErr cs = some v) : v ∈ cs ∧ isErrCell v = true :=
+  ⟨List.mem_of_find?_eq_some h, List.find?_some h⟩
 
 theorem firstErr_eq_none {cs : List Val} : firstErr cs = none ↔ NoErr cs := by
-  induction cs with
-  | nil => simp [NoErr]
-  | cons v cs ih =>
-    rw [firstErr_cons]
-    cases v with
-    | err e =>
-      constructor
-      · intro h; simp at h
-      · intro h; exact absurd List.mem_cons_self (h e)
-    | _ => simp_all [NoErr]
+  simp [firstErr, NoErr, List.find?_eq_none]
 
-theorem firstErr_pre (pre post : List Val) (e : Err) (h : NoErr pre) :
-    firstErr (pre ++ Val.err e :: post) = some e := by
-  rw [firstErr_append, firstErr_eq_none.mpr h, firstErr_cons]; rfl
+theorem firstErr_pre (pre post : List Val) (v : Val) (hv : isErrCell v = true) (h : NoErr pre) :
+    firstErr (pre ++ v :: post) = some v := by
+  rw [firstErr_append, firstErr_eq_none.mpr h, firstErr_cons, hv]; rfl
 
 theorem firstErr_perm {l₁ l₂ : List Val} (hp : l₁.Perm l₂) (h1 : OneErr l₁) : firstErr l₁ = firstErr l₂ := by
   cases h : firstErr l₁ with
   | none =>
-    have hn : NoErr l₂ := fun e he => (firstErr_eq_none.mp h) e (hp.mem_iff.mpr he)
+    have hn : NoErr l₂ := fun v hv => (firstErr_eq_none.mp h) v (hp.mem_iff.mpr hv)
     exact (firstErr_eq_none.mpr hn).symm
   | some e =>
-    have hm := firstErr_mem h
+    obtain ⟨hm, he⟩ := firstErr_mem h
     cases h2 : firstErr l₂ with
-    | none => exact absurd (hp.mem_iff.mp hm) ((firstErr_eq_none.mp h2) e)
+    | none =>
+      have := (firstErr_eq_none.mp h2) e (hp.mem_iff.mp hm)
+      rw [he] at this; exact absurd this (by simp)
     | some e' =>
-      have := h1 e e' hm (hp.mem_iff.mpr (firstErr_mem h2))
-      rw [this]
+      obtain ⟨hm', he'⟩ := firstErr_mem h2
+      rw [h1 e e' hm (hp.mem_iff.mpr hm') he he']
+
+theorem firstErr_filter (q : Val → Bool) (cs : List Val) (h : ∀ v, isErrCell v = true → q v = true) :
+    firstErr (cs.filter q) = firstErr cs := by
+  induction cs with
+  | nil => rfl
+  | cons v cs ih =>
+    rw [List.filter_cons]
+    by_cases hq : q v = true
+    · simp only [hq, ↓reduceIte, firstErr_cons, ih]
+    · have he : isErrCell v = false := by
+        cases hv : isErrCell v with
+        | false => rfl
+        | true => exact absurd (h v hv) hq
+      simp [hq, firstErr_cons, he, ih]
+
+theorem nums_filter (q : Val → Bool) (cs : List Val) (h : ∀ v, v.isNum = true → q v = true) :
+    nums (cs.filter q) = nums cs := by
+  induction cs with
+  | nil => rfl
+  | cons v cs ih =>
+    rw [List.filter_cons]
+    by_cases hq : q v = true
+    · simp only [hq, ↓reduceIte, nums_cons, ih]
+    · have hn : numOf? v = none := by
+        cases v with
+        | num x => exact absurd (h _ rfl) hq
+        | _ => rfl
+      simp [hq, nums_cons, hn, ih]
 
 theorem nums_perm {l₁ l₂ : List Val} (hp : l₁.Perm l₂) : (nums l₁).Perm (nums l₂) := hp.filterMap _
 
 theorem nums_map_num (cs : List Val) : (nums cs).map Val.num = cs.filter Val.isNum := by
   induction cs with
   | nil => rfl
-  | cons v cs ih => cases v <;> simp [nums_cons, Val.isNum, ih, List.filter_cons]
+  | cons v cs ih => cases v <;> simp [nums_cons, numOf?, Val.isNum, ih, List.filter_cons]
 
 theorem nums_of_map_num (ns : List Rat) : nums (ns.map Val.num) = ns := by
   induction ns with
   | nil => rfl
-  | cons n ns ih => simp [nums_cons, ih]
+  | cons n ns ih => simp [nums_cons, numOf?, ih]
 
 theorem noErr_map_num (ns : List Rat) : NoErr (ns.map Val.num) := by
-  intro e he; simp at he
+  intro v hv
+  simp only [List.mem_map] at hv
+  obtain ⟨q, _, rfl⟩ := hv
+  rfl
 
 /-! ### exact sums -/
 
@@ -230,7 +254,7 @@ def core : Fn → List Rat → Val
 theorem agg_eq_core (f : Fn) (cs : List Val) :
     agg f cs = match f, firstErr cs with
       | .count, _ => core .count (nums cs)
-      | _, some e => .err e
+      | _, some e => e
       | f, none => core f (nums cs) := by
   cases f <;> simp only [agg, sum_, average, min_, max_, count, numerics, core] <;>
     cases h : firstErr cs <;> simp only [] <;> cases h2 : nums cs <;> simp [minOf, maxOf]
